@@ -178,21 +178,33 @@ Record DInv (s : dsys) : Prop := {
   di_cnt : 0 <= d_cnt s (negb (d_front s));
   di_hist : map Some (d_written s) =
             d_read s ++ batch (d_datas s (negb (d_front s))) (Z.to_nat (d_cnt s (negb (d_front s))));
+  di_bad : d_badwait s = 0%nat;
 }.
 
 Lemma dinit_inv cap nb mt nw total ks : DInv (dinit cap nb mt nw total ks).
-Proof. constructor; simpl; [lia|reflexivity]. Qed.
+Proof. constructor; simpl; [lia|reflexivity|reflexivity]. Qed.
+
+Lemma batch_length f n : length (batch f n) = n.
+Proof. induction n as [|k IH]; simpl; [reflexivity|]. rewrite app_length, IH. simpl. lia. Qed.
+
+(* the back buffer's count is the number of accepted items not yet handed to the reader *)
+Lemma dinv_pending s : DInv s -> d_pending s = d_cnt s (negb (d_front s)).
+Proof.
+  intros [Ic Ih _]. unfold d_pending. apply (f_equal (@length _)) in Ih.
+  rewrite map_length, app_length, batch_length in Ih. lia.
+Qed.
 
 Lemma dmicro_inv s t s' ns : DInv s -> dmicro s t = Some (s', ns) -> DInv s'.
 Proof.
-  intros [Ic Ih] H. unfold dmicro in H.
+  intros I0 H. pose proof (dinv_pending s I0) as Hpend. destruct I0 as [Ic Ih Ib]. unfold dmicro in H.
   destruct (d_pc (d_thr s t)); try discriminate H.
   - destruct (d_todo (d_thr s t)); inv_some H; constructor; simpl; assumption.
   - inv_some H; constructor; simpl; assumption.
   - (* DChk *)
     destruct (Z.eqb_spec (d_cnt s (negb (d_front s))) (d_cap s)) as [E|E].
-    + destruct (d_nonblock s); inv_some H; constructor; simpl; assumption.
-    + inv_some H. constructor; simpl.
+    + unfold dbad in H. rewrite Hpend, E, Z.eqb_refl in H.
+      destruct (d_nonblock s); inv_some H; constructor; simpl; assumption.
+    + inv_some H. constructor; simpl; try assumption.
       * unfold bupd. rewrite Bool.eqb_reflx. lia.
       * unfold bupd. rewrite Bool.eqb_reflx.
         replace (Z.to_nat (d_cnt s (negb (d_front s)) + 1)) with (S (Z.to_nat (d_cnt s (negb (d_front s))))) by lia.
@@ -204,9 +216,10 @@ Proof.
       constructor; simpl; assumption.
   - destruct (Nat.ltb (d_got s) (d_todo (d_thr s t))); inv_some H; constructor; simpl; assumption.
   - (* EChk: swap *)
-    destruct (Z.eqb_spec (d_cnt s (negb (d_front s))) 0) as [E|E]; inv_some H.
-    + constructor; simpl; assumption.
-    + constructor; simpl.
+    destruct (Z.eqb_spec (d_cnt s (negb (d_front s))) 0) as [E|E].
+    { unfold dbad in H. rewrite Hpend, E in H. simpl in H. inv_some H. constructor; simpl; assumption. }
+    inv_some H.
+    + constructor; simpl; try assumption.
       * rewrite Bool.negb_involutive. unfold bupd. rewrite Bool.eqb_reflx. lia.
       * rewrite Bool.negb_involutive. unfold bupd. rewrite Bool.eqb_reflx. simpl. rewrite app_nil_r. exact Ih.
   - inv_some H; constructor; simpl; assumption.
@@ -215,7 +228,7 @@ Qed.
 
 Lemma dop_inv s t ch s' l : DInv s -> dop s t ch = Some (s', l) -> DInv s'.
 Proof.
-  intros [Ic Ih] H. unfold dop in H. destruct (d_pc (d_thr s t)); try discriminate H;
+  intros [Ic Ih Ib] H. unfold dop in H. destruct (d_pc (d_thr s t)); try discriminate H;
     repeat match type of H with
     | (if ?c then _ else _) = _ => destruct c; try discriminate H
     | match ?c with Some _ => _ | None => _ end = _ => destruct c
